@@ -41,6 +41,8 @@ def abort_sites(P, fn, blocks=None):
             continue
         if p and common.is_try_branch(p):
             continue
+        if p and re.search(r"result::Result(::<[^>]*>)?::(map_err|map)$", g):
+            continue        # re-labels an existing error / maps the success value: the failing call itself is classified
         pg = common.propagated(P, fn, b)
         if pg is not None:
             out.append((b, "propagated", g))
